@@ -484,6 +484,10 @@ pub fn sharded_settings(n: usize, f: ShardingFunction, with_regex: bool, auto_ke
     }
 }
 
+pub fn ref_shard_pub(f: ShardingFunction, k: i64, n: usize) -> usize {
+    ref_shard(f, k, n)
+}
+
 fn ref_shard(f: ShardingFunction, k: i64, n: usize) -> usize {
     match f {
         ShardingFunction::PgBigintHash => reference::pg_partition(k, n as u64) as usize,
